@@ -11,7 +11,8 @@ for d in seeds:
     d = d.rstrip('/')
     meta_path = os.path.join(d, 'meta.json')
     meta = json.load(open(meta_path))
-    assert sh('git -C %s status --porcelain --untracked-files=no' % REPO).stdout.strip() == '', 'repo not clean'
+    if os.path.exists(REPO + '/.git'):
+        assert sh('git -C %s status --porcelain --untracked-files=no' % REPO).stdout.strip() == '', 'repo not clean'
     r = sh('git -C %s apply %s/patch.diff' % (REPO, d))
     if r.returncode != 0:
         meta['evaluation'] = {'error': 'patch does not apply: ' + r.stdout[-300:]}
@@ -35,7 +36,7 @@ for d in seeds:
                     except Exception as e:
                         pass
     finally:
-        sh('git -C %s checkout -- .' % REPO)
+        sh('git -C %s apply -R %s/patch.diff' % (REPO, d))
     meta['evaluation'] = {'caught_by': caught, 'checks': details}
     json.dump(meta, open(meta_path, 'w'), indent=1)
     print(os.path.basename(d), 'breaks', meta['property'], '-> caught by', caught, flush=True)
